@@ -200,6 +200,15 @@ def run(c, facts, tier):
             chains.append((rx.is_var(base, "self"), [m for m, _, _ in ch]))
     okc = len(chains) == 2 and all(b and ms[0] == "iter" and not set(ms) & {"rev", "skip", "take", "step_by", "sorted", "dedup"} for b, ms in chains)
     c.ob("C02.fmt-arity", vf.key, "directives and arguments are produced in element order", okc, "adaptor chains %s" % chains)
+    # fail closed: the interpreter must have modelled every construct of the code generator it walked
+    for key in codegen.COMPILE_IMPLS + codegen.HELPERS:
+        unk = sorted({u for r in codegen.table(facts, key) for u in r["unknown"]})
+        c.ob("C02.modelled", key, "every construct of the generator was interpreted", not unk, "unmodelled constructs: %s" % unk[:4] if unk else "all paths fully interpreted", nontrivial=False)
+    for M in codegen.MANAGERS:
+        for meth in codegen.MGR_METHODS:
+            k = codegen.mgr_key(facts, M, meth)
+            unk = sorted({u for r in codegen.table(facts, k, codegen.AFF()) for u in r["unknown"]})
+            c.ob("C02.modelled", k, "every construct of the generator was interpreted", not unk, "unmodelled constructs: %s" % unk[:4] if unk else "all paths fully interpreted", nontrivial=False)
     # C02.skeleton
     sk = emit.skeleton(facts)
     toks = emit.scheme_tokens(sk["text"]) if sk and "text" in sk else None
